@@ -1,4 +1,5 @@
 import TpmProofs.PumpFacts
+import TpmProofs.Props.MsgWF
 /-!
 # C10 — decoding is incremental: one byte of look-ahead, prefix-stable, source-agnostic
 -/
